@@ -2,12 +2,15 @@ package main
 
 import (
 	"bytes"
+	"crypto/sha256"
 	"encoding/json"
 	"fmt"
 	"go/importer"
 	gotoken "go/token"
 	"os"
+	"path/filepath"
 	"runtime/debug"
+	"strings"
 
 	"github.com/dcaiafa/lox/verifhook"
 
@@ -20,35 +23,54 @@ import (
 // line per package on stdout.
 func genWorker(args []string) {
 	report := false
-	if len(args) > 0 && args[0] == "-report" {
-		report = true
+	repeat := 1
+	for len(args) > 0 && strings.HasPrefix(args[0], "-") {
+		switch {
+		case args[0] == "-report":
+			report = true
+		case strings.HasPrefix(args[0], "-repeat="):
+			fmt.Sscan(strings.TrimPrefix(args[0], "-repeat="), &repeat)
+		}
 		args = args[1:]
 	}
 	imp := importer.ForCompiler(gotoken.NewFileSet(), "source", nil)
 	enc := json.NewEncoder(os.Stdout)
 	for _, name := range args {
-		res := run.GenResult{Name: name}
-		func() {
-			var diag, rep bytes.Buffer
-			defer func() {
-				if r := recover(); r != nil {
-					res.OK = false
-					res.Panic = fmt.Sprintf("%v\n%s", r, debug.Stack())
+		for rep := 0; rep < repeat; rep++ {
+			res := run.GenResult{Name: name}
+			func() {
+				var diag, rep bytes.Buffer
+				defer func() {
+					if r := recover(); r != nil {
+						res.OK = false
+						res.Panic = fmt.Sprintf("%v\n%s", r, debug.Stack())
+					}
+					res.Diag = diag.String()
+					res.Report = rep.String()
+				}()
+				var repW *bytes.Buffer
+				if report {
+					repW = &rep
 				}
-				res.Diag = diag.String()
-				res.Report = rep.String()
+				if repW != nil {
+					res.OK = verifhook.GenerateFast(name, imp, "batch/"+name, &diag, repW)
+				} else {
+					res.OK = verifhook.GenerateFast(name, imp, "batch/"+name, &diag, nil)
+				}
 			}()
-			var repW *bytes.Buffer
-			if report {
-				repW = &rep
+			if repeat > 1 {
+				// determinism runs: report a digest of everything written
+				h := sha256.New()
+				for _, fn := range []string{"base.gen.go", "lexer.gen.go", "parser.gen.go"} {
+					data, _ := os.ReadFile(filepath.Join(name, fn))
+					fmt.Fprintf(h, "%s:%d:", fn, len(data))
+					h.Write(data)
+				}
+				h.Write([]byte(res.Report))
+				res.Report = fmt.Sprintf("%x", h.Sum(nil))
 			}
-			if repW != nil {
-				res.OK = verifhook.GenerateFast(name, imp, "batch/"+name, &diag, repW)
-			} else {
-				res.OK = verifhook.GenerateFast(name, imp, "batch/"+name, &diag, nil)
-			}
-		}()
-		enc.Encode(&res)
+			enc.Encode(&res)
+		}
 	}
 }
 
